@@ -17,7 +17,12 @@ type c14 struct{}
 
 func init() { engine.Register(c14{}) }
 
-func (c14) PostGenerate(r *engine.Rand, sc *engine.Scenario) { chooseEnv(r, sc) }
+func (c14) PostGenerate(r *engine.Rand, sc *engine.Scenario) {
+	chooseEnv(r, sc)
+	if r.Chance(1, 3) {
+		addOtherUnitEvents(r, sc, exclVideo)
+	}
+}
 
 func (c14) ID() string { return "C14" }
 
@@ -202,6 +207,9 @@ func (c14) Execute(sc *engine.Scenario) *engine.Result {
 		for ei < len(sc.Events) && sc.Events[ei].At <= m.N {
 			ev := sc.Events[ei]
 			ei++
+			if applyOther(m, &ev, res) {
+				continue
+			}
 			if ev.A == 0xff40 {
 				was, now := ref.On, ev.V&0x80 != 0
 				if was && !now {
